@@ -112,7 +112,13 @@ theorem exact_count (ops : List Op) (s : St) (hI : Inv s) (o : Nat) :
   simp only [Int.add_zero] at h
   exact ⟨by omega, h.2.1⟩
 
-/-- **never earlier**: an object a handle names (or that is referenced externally) is alive -/
+-- the hypotheses are satisfiable: the two objects of `exTwo` with three empty handles satisfy the invariant, and so
+-- does every state a history leads to
+example : Inv { objs := exTwo.objs, hnd := List.replicate 3 none } := inv_init exTwo.objs (by decide) 3
+example : Inv (run { objs := exTwo.objs, hnd := List.replicate 3 none } [.create .hmeta 1 [], .take 0 2, .copy 1 0, .drop 0]) :=
+  exact _ _ (inv_init exTwo.objs (by decide) 3)
+
+/-- **never earlier**: an object a handle names is alive (for external references: `referenced_alive_ext`) -/
 theorem referenced_alive (ops : List Op) (s : St) (hI : Inv s) (h o : Nat)
     (hn : (run s ops).hnd.getD h none = some o) : ((run s ops).obj o).alive = true := by
   have hi := (exact ops s hI) o
@@ -122,7 +128,17 @@ theorem referenced_alive (ops : List Op) (s : St) (hI : Inv s) (h o : Nat)
   | true => rfl
   | false => have := hi.2.2 ha; omega
 
-/-- **exactly at the last drop**: releasing a reference of a living object destroys it iff it was the last
+/-- **never earlier, external references**: an object its creator (or anyone outside the handles) still holds a
+    reference to is alive -/
+theorem referenced_alive_ext (ops : List Op) (s : St) (hI : Inv s) (o : Nat)
+    (he : 1 ≤ ((run s ops).obj o).ext) : ((run s ops).obj o).alive = true := by
+  have hi := (exact ops s hI) o
+  simp only [Int.add_zero] at hi
+  cases ha : ((run s ops).obj o).alive with
+  | true => rfl
+  | false => have := hi.2.2 ha; omega
+
+/-- **exactly at the last drop**, one `unref` call (the history form is `never_later`/`alive_iff_referenced`): releasing a reference of a living object destroys it iff it was the last
     one (`count = 1`); with `exact_count`, `count = 1` means exactly one reference exists -/
 theorem destroy_at_last (s : St) (o : Nat) (hc : (s.obj o).count ≤ MAXV) (ha : (s.obj o).alive = true) :
     ((s.unref o).obj o).alive = false ↔ (s.obj o).count = 1 := by
